@@ -107,8 +107,10 @@ static GLOBAL: p_perf::CountingAlloc = p_perf::CountingAlloc;
 
 fn main() {
     fmtx::install_panic_hook();
-    let _ = rayon::ThreadPoolBuilder::new().stack_size(64 << 20).build_global();
     let args: Vec<String> = std::env::args().collect();
+    if matches!(args.get(1).map(|s| s.as_str()), Some("check" | "triage" | "explore" | "replay")) {
+        let _ = rayon::ThreadPoolBuilder::new().stack_size(64 << 20).build_global();
+    }
     match args.get(1).map(|s| s.as_str()) {
         Some("ast") => {
             let text = std::fs::read_to_string(&args[2]).unwrap();
@@ -141,6 +143,29 @@ fn main() {
             let r: usize = args.get(3).map(|s| s.parse().unwrap()).unwrap_or(3);
             let n: usize = args.get(4).map(|s| s.parse().unwrap()).unwrap_or(8);
             std::process::exit(p_pure::stress_main(t, r, n));
+        }
+        Some("san-total") => {
+            // sequential replay of the adversarial / hostile / snippet sets for the ASan and Miri builds
+            let shard: usize = args[2].parse().unwrap();
+            let shards: usize = args[3].parse().unwrap();
+            let mini = args.get(4).map(|s| s == "mini").unwrap_or(false);
+            let mut cases = corpus::adversarial();
+            cases.extend(corpus::hostile());
+            cases.extend(corpus::repro_open());
+            cases.extend(corpus::snippets());
+            let mut acc = engine::Acc::new();
+            let mut n = 0;
+            for (i, c) in cases.iter().enumerate() {
+                if i % shards != shard || (mini && (i % 37 != 0 || c.text.len() > 120)) {
+                    continue;
+                }
+                n += 1;
+                let cfgs: &[Cfg] = if mini { &[Cfg { width: 20, tab: 2, reorder: false }] } else { &[Cfg { width: 80, tab: 2, reorder: false }, Cfg { width: 0, tab: 2, reorder: true }, Cfg { width: fmtx::W_INF, tab: 7, reorder: false }] };
+                for &cfg in cfgs {
+                    p_total::observe(&c.text, cfg, &c.origin, &mut acc);
+                }
+            }
+            println!("SAN-TOTAL shard={}/{} items={} calls={} oracle_violations={}", shard, shards, n, acc.evaluations, acc.violations.len());
         }
         Some("replay") => std::process::exit(props::replay(&args[2])),
         Some("triage") => props::triage(&args[2], workload::Tier::parse(args.get(3).map(|s| s.as_str()).unwrap_or("thorough"))),
